@@ -2,7 +2,9 @@ package props
 
 import (
 	"context"
+
 	"fmt"
+	ledgercontroller "github.com/formancehq/ledger/internal/controller/ledger"
 	"sort"
 	"time"
 
@@ -78,13 +80,17 @@ func init() {
 			vacuous(r, stb, "post:ok", "createledger:ok", "deletebucket:ok", "restorebucket:ok")
 		}
 		e := &lx.SeqExplorer{
-			Ledgers:  []lx.LedgerSpec{{Name: "l1"}},
+			Ledgers:  []lx.LedgerSpec{{Name: "l1"}, {Name: "twin", Bucket: "twinb"}},
 			Alphabet: append(coreAlphabet(), retriedOps()...),
 			Depth:    ev.Pick(r, 3, 4),
 			Restart:  true,
 			Sigs:     c02Sigs,
 			Check: func(ctx context.Context, s *lx.StepInfo, rep *lx.Report) {
 				lx.CheckCurrent(ctx, s.Ctrl, s.Ref, rep)
+				// the same volumes on the ledger reached through export + import of this history
+				twinLeg(ctx, s, rep, func(c ledgercontroller.Controller, sub *lx.Report) {
+					lx.CheckCurrent(ctx, c, s.Ref, sub)
+				})
 			},
 		}
 		st, err := e.Run(context.Background(), r)
@@ -105,7 +111,7 @@ func init() {
 			}
 			st.Exhaustive = st.Exhaustive && stb.Exhaustive && stb.DepthDone == eb.Depth
 		}
-		return r.Finish(seqCoverage(e, st, "every sequence of length<=depth over the write alphabet (creates by postings/script incl. src==dst, multi-posting, 2^64+1, back/future dated, reverts, metadata, dry run, failing writes), executed through the real system controller on pgsim; after each sequence GetAccount/ListAccounts(expand volumes, effectiveVolumes), GetVolumesWithBalances and GetAggregatedBalances are compared with a reference fold of the committed postings, from the live process and from a freshly attached one; before that, every sequence (length<=3 quick / 5 thorough) over the bucket-lifecycle alphabet (postings on l3 and on a ledger l4 created beside it in the same bucket, soft delete and restore of the bucket), same comparison for every routable ledger"),
+		return r.Finish(seqCoverage(e, st, "every sequence of length<=depth over the write alphabet (creates by postings/script incl. src==dst, multi-posting, 2^64+1, back/future dated, reverts, metadata, dry run, failing writes), executed through the real system controller on pgsim; after each sequence GetAccount/ListAccounts(expand volumes, effectiveVolumes), GetVolumesWithBalances and GetAggregatedBalances are compared with a reference fold of the committed postings, from the live process and from a freshly attached one, and on a twin ledger into which the export of the history is imported; before that, every sequence (length<=3 quick / 5 thorough) over the bucket-lifecycle alphabet (postings on l3 and on a ledger l4 created beside it in the same bucket, soft delete and restore of the bucket), same comparison for every routable ledger"),
 			[]string{pgsimAssumption})
 	})
 }
